@@ -145,7 +145,7 @@ def template_source(rnd, n, branches=True, extended=False):
         elif kind == 5:
             out.append(f"\t{rnd.choice(['call', 'jmp', 'jne', 'je'])} f+{rnd.randrange(0, 4000)}")
         elif kind == 6:
-            out.append(f"\t{rnd.choice(['ret', 'nop', 'leave', 'cltq', 'hlt'])}")
+            out.append(f"\t{rnd.choice(['ret', 'nop', 'leave', 'cltq', 'hlt', 'push $0x10', 'ret $0x8', 'int $0x80', 'push $0x401013', 'bswap %eax'])}")
         elif kind == 7:
             out.append(f"\tlea {mem()},%{rnd.choice(REG64)}")
         else:
